@@ -114,14 +114,176 @@ theorem cmapFilename_plain (name : Bytes) (h : plainFile (cmapFilename name) = t
 /-- Extensions the writer uses: no separator, at least 3 bytes (`.bmp`, `.jpg`, `.jp2`, `.N.WxH.img`). -/
 def ValidExt (ext : Bytes) : Prop := (¬ 47 ∈ ext) ∧ 3 ≤ ext.length
 
-theorem safeName_no_slash (name : Bytes) : ¬ 47 ∈ safeName name := by
+/-- What the (regenerated) set of replaced characters and the replacement must satisfy for the
+    sanitiser to do its job: separator and NUL are replaced, by something that is neither. -/
+theorem imageReplaced_ok : (47 : UInt8) ∈ Gen.PathGen.imageReplacedChars ∧ (0 : UInt8) ∈ Gen.PathGen.imageReplacedChars ∧
+    Gen.PathGen.imageReplacement ∉ Gen.PathGen.imageReplacedChars := by decide
+
+theorem safeName_not_replaced (name : Bytes) (c : UInt8) (hc : c ∈ Gen.PathGen.imageReplacedChars) :
+    c ∉ safeName name := by
   unfold safeName
   intro h
-  obtain ⟨c, _, hc⟩ := List.mem_map.mp h
-  split at hc
-  · cases hc
+  obtain ⟨x, _, hx⟩ := List.mem_map.mp h
+  split at hx
+  · exact imageReplaced_ok.2.2 (hx ▸ hc)
   · rename_i hne
-    exact hne (Or.inl hc)
+    rw [hx] at hne
+    exact hne (by simpa using hc)
+
+theorem safeName_no_slash (name : Bytes) : ¬ 47 ∈ safeName name :=
+  safeName_not_replaced name 47 imageReplaced_ok.1
+
+theorem safeName_no_nul (name : Bytes) : ¬ 0 ∈ safeName name :=
+  safeName_not_replaced name 0 imageReplaced_ok.2.1
+
+theorem safeName_length (name : Bytes) : (safeName name).length = name.length := by
+  simp [safeName]
+
+/-- Names without a replaced character are kept as they are. -/
+theorem safeName_id (name : Bytes) (h : ∀ c ∈ name, c ∉ Gen.PathGen.imageReplacedChars) : safeName name = name := by
+  unfold safeName
+  conv => rhs; rw [← List.map_id name]
+  apply List.map_congr_left
+  intro c hc
+  have := h c hc
+  simp [this]
+
+theorem safeName_idem (name : Bytes) : safeName (safeName name) = safeName name :=
+  safeName_id _ (fun c hc hr => safeName_not_replaced name c hr hc)
+
+/-- Byte by byte: position `i` holds the replacement when the source byte is NUL or `/`, else the source byte. -/
+theorem safeName_getElem (name : Bytes) (i : Nat) :
+    (safeName name)[i]? = (name[i]?).map (fun c => if c = 0 ∨ c = 47 then Gen.PathGen.imageReplacement else c) := by
+  unfold safeName
+  rw [List.getElem?_map]
+  congr 1
+  funext c
+  have : Gen.PathGen.imageReplacedChars.contains c = decide (c = 0 ∨ c = 47) := by
+    simp [Gen.PathGen.imageReplacedChars]
+  rw [this]
+  simp
+
+/-! ### `os.path.basename` and the translated guard -/
+
+theorem splitSlash_no_slash : ∀ (p c : Bytes), c ∈ splitSlash p → ¬ 47 ∈ c
+  | [], c, h => by
+    simp only [splitSlash, List.mem_singleton] at h
+    subst h
+    simp
+  | x :: xs, c, h => by
+    unfold splitSlash at h
+    split at h
+    · rcases List.mem_cons.mp h with rfl | h
+      · simp
+      · exact splitSlash_no_slash xs c h
+    · rename_i hx
+      split at h
+      · rename_i hd tl heq
+        rcases List.mem_cons.mp h with rfl | h
+        · have := splitSlash_no_slash xs hd (by rw [heq]; simp)
+          simp only [List.mem_cons, not_or]
+          exact ⟨fun e => hx e.symm, this⟩
+        · exact splitSlash_no_slash xs c (by rw [heq]; simp [h])
+      · rename_i heq
+        exact absurd heq (splitSlash_ne_nil xs)
+
+theorem basename_no_slash (p : Bytes) : ¬ 47 ∈ basename p := by
+  unfold basename
+  have hne := splitSlash_ne_nil p
+  have : (splitSlash p).getLastD [] ∈ splitSlash p := by
+    rw [List.getLastD_eq_getLast?]
+    cases h : (splitSlash p).getLast? with
+    | none => simp [List.getLast?_eq_none_iff] at h; exact absurd h hne
+    | some x => exact List.mem_of_getLast? h
+  exact splitSlash_no_slash p _ this
+
+/-- `os.path.basename(f) == f` exactly when `f` contains no separator. -/
+theorem basename_eq_self_iff (f : Bytes) : basename f = f ↔ ¬ 47 ∈ f := by
+  constructor
+  · intro h
+    rw [← h]
+    exact basename_no_slash f
+  · intro h
+    simp [basename, splitSlash_plain f h]
+
+/-- The translated guard of `_load_data` is the test "the file name contains a separator". -/
+theorem cmapGuard_eq (name f : Bytes) : Gen.PathGen.cmapGuardRejects basename name f = !plainFile f := by
+  unfold Gen.PathGen.cmapGuardRejects plainFile
+  by_cases h : (47 : UInt8) ∈ f
+  · have : basename f ≠ f := fun e => (basename_eq_self_iff f).mp e h
+    simp [h, this]
+  · have : basename f = f := (basename_eq_self_iff f).mpr h
+    simp [h, this]
+
+theorem cmapProbes_eq (dirs : List Bytes) (name : Bytes) :
+    cmapProbes dirs name = if plainFile (cmapFilename name) then dirs.map (fun d => join d (cmapFilename name)) else [] := by
+  unfold cmapProbes
+  rw [cmapGuard_eq]
+  cases plainFile (cmapFilename name) <;> simp
+
+/-! ### `normpath` yields canonical components (round 6) -/
+
+/-- A canonical component: not empty, not `.`, no separator; `..` only in relative paths. -/
+def CanonComp (abs : Bool) (c : Bytes) : Prop :=
+  c ≠ [] ∧ c ≠ [46] ∧ (¬ 47 ∈ c) ∧ (abs = true → c ≠ [46, 46])
+
+theorem normStep_canon (abs : Bool) (stack : List Bytes) (c : Bytes) (hc : ¬ 47 ∈ c)
+    (hs : ∀ x ∈ stack, CanonComp abs x) : ∀ x ∈ normStep abs stack c, CanonComp abs x := by
+  unfold normStep
+  split
+  · exact hs
+  · rename_i h1
+    split
+    · rename_i h2
+      subst h2
+      match stack, hs with
+      | [], _ =>
+        by_cases ha : abs = true
+        · simp [ha]
+        · simp only [ha, Bool.false_eq_true, if_false, List.mem_singleton]
+          rintro x rfl
+          exact ⟨by decide, by decide, by decide, fun h => absurd h (by decide)⟩
+      | t :: rest, hs =>
+        simp only
+        split
+        · rename_i ht
+          intro x hx
+          rcases List.mem_cons.mp hx with rfl | hx
+          · refine ⟨by decide, by decide, by decide, fun ha => ?_⟩
+            exact absurd ht ((hs t (by simp)).2.2.2 ha)
+          · exact hs x hx
+        · intro x hx
+          exact hs x (by simp [hx])
+    · rename_i h2
+      intro x hx
+      rcases List.mem_cons.mp hx with rfl | hx
+      · exact ⟨fun h => h1 (Or.inl h), fun h => h1 (Or.inr h), hc, fun _ => h2⟩
+      · exact hs x hx
+
+theorem foldl_normStep_canon (abs : Bool) : ∀ (cs : List Bytes) (stack : List Bytes), (∀ c ∈ cs, ¬ 47 ∈ c) →
+    (∀ x ∈ stack, CanonComp abs x) → ∀ x ∈ cs.foldl (normStep abs) stack, CanonComp abs x
+  | [], stack, _, hs => by simpa using hs
+  | c :: cs, stack, hcs, hs => by
+    simp only [List.foldl_cons]
+    exact foldl_normStep_canon abs cs _ (fun c' hc' => hcs c' (by simp [hc']))
+      (normStep_canon abs stack c (hcs c (by simp)) hs)
+
+/-- Every component of a normalised path is canonical — for every byte string `p`. -/
+theorem norm_canon (p : Bytes) : ∀ c ∈ (norm p).2, CanonComp (isAbs p) c := by
+  intro c hc
+  simp only [norm, List.mem_reverse] at hc
+  exact foldl_normStep_canon (isAbs p) (splitSlash p) [] (fun c' hc' => splitSlash_no_slash p c' hc')
+    (by simp) c hc
+
+/-- Joining a non-absolute name onto a fixed directory is injective. -/
+theorem join_right_injective (d a b : Bytes) (ha : isAbs a = false) (hb : isAbs b = false)
+    (h : join d a = join d b) : a = b := by
+  unfold join at h
+  simp only [ha, hb, Bool.false_eq_true, if_false] at h
+  split at h
+  · exact List.append_cancel_left h
+  · have := List.append_cancel_left h
+    simpa using this
 
 theorem decRev_digits : ∀ (fuel n : Nat) (c : UInt8), c ∈ decRev fuel n → c ≠ 47
   | 0, _, _, h => by simp [decRev] at h
